@@ -69,21 +69,21 @@ type sworld struct {
 	pendingS  []refenc.AuthServer
 	conns     []net.Conn
 	// expectations that hold for every arrival order
-	valid      map[uint32]map[uint32]uint64
-	equiv      map[uint32]map[uint32]bool
-	authed     map[uint32]refenc.Auth
-	conflicted map[uint32]bool
-	postedSrv  map[[32]byte]bool
-	bannedSrv  map[[32]byte]bool
-	orders     map[[32]byte]map[[64]byte]bool
-	ivals      []ival
-	udpSent    uint64
-	lossy      bool
-	unkDev     map[uint32]bool // a write for this device/server/order failed at transport level: its state is not predicted
-	unkSrv     map[[32]byte]bool
-	unkOrder   map[[32]byte]bool
+	valid            map[uint32]map[uint32]uint64
+	equiv            map[uint32]map[uint32]bool
+	authed           map[uint32]refenc.Auth
+	conflicted       map[uint32]bool
+	postedSrv        map[[32]byte]bool
+	bannedSrv        map[[32]byte]bool
+	orders           map[[32]byte]map[[64]byte]bool
+	ivals            []ival
+	udpSent          uint64
+	lossy            bool
+	unkDev           map[uint32]bool // a write for this device/server/order failed at transport level: its state is not predicted
+	unkSrv           map[[32]byte]bool
+	unkOrder         map[[32]byte]bool
 	transportSamples []string
-	hostileN   int
+	hostileN         int
 }
 
 func (w *sworld) slot(d *drv.Dev, now uint32) uint32 {
@@ -266,7 +266,10 @@ func (w *sworld) build(kind int, now, offset uint32) sop {
 	case "registerAgain":
 		reg := refenc.Registration{GCAKey: refenc.GenKey(rng).Pub}
 		reg.Sig = refenc.Sign(w.Temp.Priv, reg.SigningBytes())
-		return sop{kind, func(net.Conn) string { c, _, err := w.Post("/api/v1/register-gca", reg.JSON()); return httpDev(name, c, err, 500) }, nil}
+		return sop{kind, func(net.Conn) string {
+			c, _, err := w.Post("/api/v1/register-gca", reg.JSON())
+			return httpDev(name, c, err, 500)
+		}, nil}
 	}
 	panic("kind " + name)
 }
@@ -524,6 +527,17 @@ func stressWorld(b run.Batch, r *ev.Result, rng *rand.Rand, round int, phases []
 		}
 		run.Op("stress world %d phase %s goroutines=%d now=%d", round, ph.label, len(ph.kinds), now)
 		off := w.S.VerifSnapshot(false).Offset
+		// The rotation job looks at the clock every 100 ms; several short phases fit into that. Reports are
+		// planned up to now+200 and must stay below offset+4032 whenever they are processed, so the clock is
+		// not allowed to run more than two phases past the rotation trigger (3200) before the job has rotated.
+		for i := 0; now-off > 3540 && i < 20000; i++ {
+			time.Sleep(time.Millisecond)
+			off = w.S.VerifSnapshot(false).Offset
+		}
+		if now-off > 3540 {
+			r.Inconc("stress: the rotation job did not rotate within 20 s after its trigger")
+			return done, false
+		}
 		plans := make([][]sop, len(ph.kinds))
 		for g, ks := range ph.kinds {
 			for _, k := range ks {
@@ -569,7 +583,7 @@ func stressWorld(b run.Batch, r *ev.Result, rng *rand.Rand, round int, phases []
 		}
 	}
 	if len(w.transportSamples) > 0 {
-		r.Note("stress: operations that failed at transport level (outcome unknown, expectation withdrawn), e.g. %.400v", w.transportSamples)
+		r.Note("stress: operations that failed at transport level (server-side 2.5 s deadlines under load; outcome unknown, expectation withdrawn), e.g. %.160s", w.transportSamples[0])
 	}
 
 	// park the jobs, then the system is quiescent
@@ -602,7 +616,7 @@ func stressWorld(b run.Batch, r *ev.Result, rng *rand.Rand, round int, phases []
 	// deviations from what every sequential order gives
 	for i, d := range allDevs {
 		if i < 3 {
-			r.Violationf("response-impossible-in-any-sequential-order", map[string]interface{}{"deviation": d, "batch_seed": b.Seed}, "%s", d)
+			r.Violationf("response-impossible-in-any-sequential-order", map[string]interface{}{"deviation": d, "batch": curBatch}, "%s", d)
 		}
 	}
 	if !w.quiesce("stress run", nil) {
@@ -617,7 +631,7 @@ func (w *sworld) finalCheck() {
 	r := w.r
 	s := w.S.VerifSnapshot(true)
 	bad := func(key string, f string, a ...interface{}) {
-		r.Violationf("final-state-impossible-in-any-sequential-order:"+key, map[string]interface{}{"detail": fmt.Sprintf(f, a...)}, f, a...)
+		r.Violationf("final-state-impossible-in-any-sequential-order:"+key, map[string]interface{}{"detail": fmt.Sprintf(f, a...), "batch": curBatch}, f, a...)
 	}
 	value := func(d *drv.Dev, slot uint32) (uint64, bool) {
 		if slot >= s.Offset {
